@@ -27,7 +27,7 @@ THEOREMS = ["JanetModel.Props.C03." + t for t in (
     "compare_antisymm", "compare_trans", "compare_lt_of_lt_of_le", "compare_lt_of_le_of_lt", "compare_total", "compare_total_order",
     "compare_eq_zero_iff_equals", "compare_congr", "lt_le_gt_ge_agree",
     "tuple_by_content", "struct_by_slots", "ref_by_identity", "symbol_identity_iff_bytes",
-    "struct_put_capacity", "struct_layout_canonical_partial",
+    "struct_put_capacity", "struct_layout_canonical_partial", "struct_layout_canonical_partial_cluster",
 )]
 ENV = dict(os.environ, ASAN_OPTIONS="detect_leaks=0:abort_on_error=0", UBSAN_OPTIONS="print_stacktrace=1")
 HARNESS_SRC = os.path.join(VERIF, "harness/C03/pool.c")
@@ -475,7 +475,12 @@ def run(ctx, scripts=None):
         f = lfails[0]
         n = len(f["keys"])
         o1, o2 = list(range(n)), f["order"]
-        srcs = ["(struct %s)" % " ".join("%s %d" % (term_src(f["keys"][i]), i + 1) for i in o) for o in (o1, o2)]
+        kvtxt = [" ".join("%s %d" % (term_src(f["keys"][i]), i + 1) for i in o) for o in (o1, o2)]
+        ways = {"struct": "(struct %s)", "table/to-struct": "(table/to-struct (table %s))", "freeze": "(freeze (table %s))",
+                "unmarshal": "(unmarshal (marshal (struct %s)))", "parse": "(parse (string/format \"%%j\" (struct %s)))",
+                "struct-splice-kvs": "(struct ;(kvs (struct %s)))", "merge/to-struct": "(table/to-struct (merge @{} (struct %s)))"}
+        # reference: janet_struct_put in the order 0..n-1; the other: the order / constructor on which the harness saw the difference
+        srcs = ["(struct %s)" % kvtxt[0], ways.get(f["via"], "(struct %s)") % kvtxt[1]]
         ms = mini_script([], srcs)
         r2 = run_pool(hx, ms, None, timeout=120)
         confirmed = bool(r2.capi) and len(r2.capi) == 2 and r2.capi[0][1] != "="
